@@ -1,4 +1,4 @@
-use crate::{Edge, Graph, GraphSpecs, MissingNodeStrategy};
+use crate::{Edge, Graph, GraphSpecs, MissingNodeStrategy, Node};
 use itertools::Itertools;
 use std::sync::Arc;
 
@@ -22,7 +22,7 @@ pub fn complete_graph(num_nodes: i32, directed: bool) -> Graph<i32, ()> {
         false => (0..num_nodes).combinations(2).collect::<Vec<Vec<i32>>>(),
         true => (0..num_nodes).permutations(2).collect::<Vec<Vec<i32>>>(),
     };
-    let nodes = vec![];
+    let nodes = (0..num_nodes).map(Node::from_name).collect();
     let edges = x
         .into_iter()
         .map(|x| Edge::new(x[0], x[1]))
